@@ -1429,16 +1429,22 @@ impl OpGen<'_> {
             }
             "add_export_func" => {
                 let c = m.alive_funcs();
+                // sometimes under the name of an export that was deleted earlier (names only have to be
+                // unique among the exports that are alive)
+                let freed: Vec<String> = m.exports.iter().filter(|e| e.deleted && !m.exports.iter().any(|o| !o.deleted && o.name == e.name)).map(|e| e.name.clone()).collect();
+                let reuse = if self.rng.chance(1, 3) { self.rng.pick_opt(&freed).cloned() } else { None };
                 Some(Op::AddExportFunc {
-                    name: self.st.names.next("xf"),
+                    name: reuse.unwrap_or_else(|| self.st.names.next("xf")),
                     id: *self.rng.pick_opt(&c)?,
                     tag: self.tag(),
                 })
             }
             "add_export_mem" => {
                 let c = m.alive_mems();
+                let freed: Vec<String> = m.exports.iter().filter(|e| e.deleted && !m.exports.iter().any(|o| !o.deleted && o.name == e.name)).map(|e| e.name.clone()).collect();
+                let reuse = if self.rng.chance(1, 3) { self.rng.pick_opt(&freed).cloned() } else { None };
                 Some(Op::AddExportMem {
-                    name: self.st.names.next("xm"),
+                    name: reuse.unwrap_or_else(|| self.st.names.next("xm")),
                     id: *self.rng.pick_opt(&c)?,
                     tag: self.tag(),
                 })
